@@ -5,6 +5,8 @@
  G1  field declaration (= drop) order of the channel structs that own an allocator together with containers of handles
      into it  ->  lean/Mutiny/Generated/DropOrder.lean
  G2  inventory of the `vp!` hook tags per source file, in source order  ->  lean/Mutiny/Generated/Tags.lean
+ G4  the counter arithmetic of the two ring buffers, per function, as operator kinds in source order
+     ->  lean/Mutiny/Generated/RingOps.lean   (Props/C15_Ops.lean)
  G3  the wake decision of every send path of every channel (guard chain -> wake target), as terms of a tiny expression
      language  ->  lean/Mutiny/Generated/WakeRules.lean   (Props/C04_Rules.lean proves, for all MAX_STREAMS and lengths,
      that each generated chain computes the wake rule of model M8 the C04 theorem is about)
@@ -158,6 +160,84 @@ def gen_wake_rules():
     p = os.path.join(OUT, "WakeRules.lean")
     if not os.path.exists(p) or open(p).read() != new: open(p, "w").write(new)
 
+
+# ---------------------------------------------------------------------------------------------------------------- G4
+# the counter arithmetic of the two rings, per function, as a sequence of operator kinds in source order
+#   -> lean/Mutiny/Generated/RingOps.lean   (Props/C15_Ops.lean: each sequence equals the operations the u32 machines
+#      `Ring32` / `LockRing32` perform at the corresponding program points)
+RING_FILES = [
+    ("atomicMove", "src/ogre_std/ogre_queues/atomic/atomic_move.rs",
+     ["leak_slot_internal", "try_publish_leaked_internal", "try_publish_leaked_internal_index", "try_unleak_slot_internal",
+      "try_unleak_slot_index_internal", "consume_leaking_internal", "release_leaked_internal", "len_after_publishing",
+      "available_elements_count"]),
+    ("fullSyncMove", "src/ogre_std/ogre_queues/full_sync/full_sync_move.rs",
+     ["leak_slot_internal", "publish_leaked_internal", "unleak_internal", "consume_leaking_internal",
+      "release_leaked_internal", "available_elements_count"]),
+]
+OP_PATTERNS = [
+    (r"\.fetch_add\s*\(", "fetchAdd"), (r"\.fetch_sub\s*\(", "fetchSub"), (r"\.compare_exchange(?:_weak)?\s*\(", "cas"),
+    (r"\.overflowing_sub\s*\(", "wsub"), (r"\.wrapping_sub\s*\(", "wsub"), (r"\.overflowing_add\s*\(", "wadd"), (r"\.wrapping_add\s*\(", "wadd"),
+    (r"\.saturating_sub\s*\(", "ssub"), (r"\.saturating_add\s*\(", "sadd"), (r"\.checked_(?:sub|add|mul)\s*\(", "checked"),
+    (r"\bas\s+i32\b", "asI32"), (r"\b[iu]32::max\s*\(", "max"), (r"\b[iu]32::min\s*\(", "min"),
+    (r"(?<=[\w\)\]])\s\+=\s", "caddAssign"), (r"(?<=[\w\)\]])\s-=\s", "csubAssign"),
+    (r"(?<=[\w\)\]])\s\+\s(?=[\w\(])", "cadd"), (r"(?<=[\w\)\]])\s-\s(?=[\w\(])", "csub"), (r"(?<=[\w\)\]])\s\*\s(?=[\w\(])", "cmul"),
+    (r"(?<=[\w\)\]])\s/\s(?=[\w\(])", "div"), (r"(?<=[\w\)\]])\s%\s(?=[\w\(])", "mod"),
+    (r"(?<=[\w\)\]])\+1\b", "cadd"), (r"(?<=[\w\)\]])-1\b", "csub"),
+]
+
+def fn_body(src, name):
+    m = re.search(r"\bfn\s+" + re.escape(name) + r"\b", src)
+    if not m: return None
+    i = src.index("{", m.end())
+    # skip a `where` clause / return type containing braces? (none here); brace matching
+    depth, j = 0, i
+    while True:
+        c = src[j]
+        if c == "{": depth += 1
+        elif c == "}":
+            depth -= 1
+            if depth == 0: break
+        j += 1
+    return src[i + 1:j]
+
+def ring_ops(body):
+    body = strip_comments(body)
+    body = re.sub(r'vp!\([^;]*\);', "", body)
+    body = re.sub(r'"[^"\n]*"', '""', body)
+    body = re.sub(r"<\s*[A-Za-z_][\w:]*(?:\s*,\s*[\w:]+)*\s*>", "", body)          # turbofish / generic arguments
+    body = re.sub(r"&\s*(?:mut\s*)?\*", "&", body)                                  # `&mut * ptr`, `&* ptr`: dereferences, not products
+    body = re.sub(r"([{(=])\s*\*\s*", r"\1 DEREF", body)                           # `{ * self.tail.get() }`, `= *x`
+    found = []
+    for pat, kind in OP_PATTERNS:
+        for m in re.finditer(pat, body):
+            found.append((m.start(), kind))
+    found.sort()
+    return [k for _, k in found]
+
+def gen_ring_ops():
+    lines = ["/-! GENERATED by tools/extract.py from /repo's current source on every run -- do not edit.",
+             "The counter arithmetic of the two ring buffers: per function, the operator kinds in source order",
+             "(`wsub`/`wadd` = overflowing_/wrapping_ sub/add, `cadd`/`csub`/`cmul` = plain `+` `-` `*` (checked in a build with overflow",
+             "checks), `asI32` = `as i32`, `max`, `div`, `mod`, `fetchAdd`, `cas`, `ssub`/`sadd` = saturating, `checked` = checked_*). -/",
+             "namespace Mutiny.Generated", ""]
+    names = []
+    for (prefix, path, fns) in RING_FILES:
+        src = open(os.path.join(REPO, path)).read()
+        for fn in fns:
+            body = fn_body(src, fn)
+            ops = ring_ops(body) if body is not None else ["<function not found>"]
+            nm = f"{prefix}_{fn}"
+            names.append(nm)
+            lines.append(f"/-- `{fn}` in `{path}` -/")
+            lines.append(f"def {nm} : List String := [" + ", ".join(lean_str(o) for o in ops) + "]")
+            lines.append("")
+    lines.append("def ringOps : List (String × List String) := [" + ", ".join(f'("{n}", {n})' for n in names) + "]")
+    lines.append("")
+    lines.append("end Mutiny.Generated")
+    new = "\n".join(lines) + "\n"
+    p = os.path.join(OUT, "RingOps.lean")
+    if not os.path.exists(p) or open(p).read() != new: open(p, "w").write(new)
+
 def main():
     os.makedirs(OUT, exist_ok=True)
     lines = ["import Mutiny.Model.Teardown",
@@ -198,3 +278,4 @@ def main():
 if __name__ == "__main__":
     main()
     gen_wake_rules()
+    gen_ring_ops()
